@@ -192,6 +192,13 @@ def cli_case(ctx, rng):
             "-dW.n=%d" % nn]
     if f:
         argv.append(rng.choice(["-dF", "-dF=true", "--define=F"]))
+    if rng.random() < 0.4:
+        # further output groups after (or between) the defines: defines are global wherever they appear
+        tail = ["--", "-f", "symbols", "-o", "syms.txt"]
+        if rng.random() < 0.5 and len(argv) > 6:
+            moved = argv.pop()           # one define travels into the last group
+            tail.append(moved)
+        argv += tail
     res = runner.run_cli(ctx.cli("rel"), argv, {"main.asm": src}, cpu_s=10)
     ctx.evaluated()
     ctx.monitor("cli-define-spellings")
